@@ -16,6 +16,14 @@ theorem lock_step_inv {k : Kind} (hk : k ≠ .sync true) {s s' : St} {tok : Tok}
   unfold step at hs
   simp only [] at hs
   split at hs
+  · -- the interrupted futex wait: the parked thread holds nothing, only its pc changes
+    rename_i hint
+    have hpc : s.pc tok.tid = .blocked := by
+      simp only [isInterrupt, Bool.and_eq_true, beq_iff_eq] at hint
+      exact hint.2
+    injection hs with hs; injection hs with hs _; subst hs
+    exact pcOnly_inv inv (not_holds_of_pc hpc (by simp)) (by simp)
+  split at hs
   · simp at hs
   · rename_i hen
     have hen' : s.enabled tok.tid = true := by simpa using hen
